@@ -19,13 +19,13 @@ META = {
                  'Gallina model of bases.py __or__/__and__, bind_to and the config propagation + per-configuration differential '
                  'correspondence with the implementation in fresh interpreters',
     'design_ref': 'DESIGN.md section 4 C12',
-    'theorems': ['C12_tables', 'C12_or_left_wins', 'C12_or_fallback', 'C12_or_special', 'C12_or_special_not_inherited',
+    'theorems': ['C12_tables', 'C12_merge_source_tie', 'C12_or_left_wins', 'C12_or_fallback', 'C12_or_special', 'C12_or_special_not_inherited',
                  'C12_or_abstract_left', 'C12_and_overlay', 'C12_effective_nonrecursive', 'C12_effective_get',
                  'C12_cascade', 'C12_cascade_complete', 'C12_behaviour', 'C12_auto_tags_partial', 'C12_auto_tags_refuted',
                  'C12_engines_agree', 'C12_history_fresh', 'C12_history_independent', 'C12_history_refuted', 'C12_auto_tags_byvalue_partial',
                  'C12_table_invariant', 'C12_table_cascade', 'C12_table_effective', 'C12_table_tag', 'C12_table_tag_persists_refuted',
                  'C12_table_parsers_frozen_refuted'],
-    'tables': ['MetaFields'],
+    'tables': ['MetaFields', 'MetaMergeAlg'],
     'level_text': ('Theorems proved in Coq for ALL Meta contents (any values, any subset of the settings table regenerated from '
                    'AbstractMeta), ALL nesting shapes (Optional, list, dict value, tuple, Union, intermediate dataclasses with their own '
                    'Meta, any depth) and the three engines: the meta a nested class is generated under is effective(own, root), and the '
